@@ -8,37 +8,52 @@ import streams, vlib, wire, wirecheck
 
 def run(ctx):
     q = ctx.quick
-    n_idx = 110 if q else 1500
+    batch = 110
+    nb = 1 if q else 8                      # the exchanges are judged batch by batch (memory: ~70 000 executions with full dumps per batch)
+    n_idx = batch * nb
     start = (ctx.seed * 104729) % 100000
-    scns, gen = wire.generate(ctx, start, start + n_idx - 1, 2)
+    total = distinct = 0
+    gdistinct = ggenerated = nrs = 0
+    first_scn, first_meta = None, None
 
     def schedules(ex, rnd):
         for label, arr in streams.single_cuts(ex["q"], ex["s"], "rf"):
             yield label, arr
         yield "byte", streams.recut([(">", ex["q"]), ("<", ex["s"])], "byte")
-        for k in range(3 if q else 20):
+        for k in range(3 if q else 12):
             yield "rand%d" % k, streams.recut([(">", ex["q"]), ("<", ex["s"])], "rand", rnd)
-        for k in range(6 if q else 60):          # double cuts, interleaved arrival where legal
+        for k in range(6 if q else 30):          # double cuts, interleaved arrival where legal
             a, b = rnd.randrange(1, len(ex["q"])), rnd.randrange(1, len(ex["s"]))
             yield "dc%d" % k, [(">", ex["q"][:a]), ("<", ex["s"][:b]), (">", ex["q"][a:]), ("<", ex["s"][b:])]
-    rs, meta = wirecheck.build_rows(ctx, scns, schedules, lambda sc: [9])
     exe = vlib.build(ctx, "san", ["rec"])["rec"]
-    files = streams.run_rec(ctx, exe, rs, "c03")
-    rows = wirecheck.rows_from_traces(ctx, files, rs, meta)
-    total, distinct, bad = wirecheck.judge(ctx, rows, ["Invariance", "Fidelity"])
-    wirecheck.attach_sites(ctx, bad, files)
-    byname = {s.name: s for s in rs}
-    for v in bad:
-        if v["run"] in byname:
-            v["scenario"] = byname[v["run"]].text()
-    ctx.violations += bad
+    import os
+    for bi in range(nb):
+        scns, gen = wire.generate(ctx, start + bi * batch, start + (bi + 1) * batch - 1, 2)
+        gdistinct += gen.distinct; ggenerated += gen.generated
+        rs, meta = wirecheck.build_rows(ctx, scns, schedules, lambda sc: [9])
+        nrs += len(rs)
+        if first_scn is None:
+            first_scn, first_meta = scns[0], [m["sched"] for m in meta[:12]]
+        files = streams.run_rec(ctx, exe, rs, "c03_%d" % bi)
+        rows = wirecheck.rows_from_traces(ctx, files, rs, meta)
+        t, d, bad = wirecheck.judge(ctx, rows, ["Invariance", "Fidelity"])
+        total += t; distinct += d
+        wirecheck.attach_sites(ctx, bad, files)
+        byname = {s.name: s for s in rs}
+        for v in bad:
+            if v["run"] in byname:
+                v["scenario"] = byname[v["run"]].text()
+        ctx.violations += bad
+        for f in files:
+            os.remove(f)
+        del rows, rs, meta, byname
     # corpus captures: every schedule of a capture must give the dump of its original chunking (invariance only; no Expected for captures)
-    vac = None if total >= len(rs) * 0.95 else "judged %d rows for %d executions" % (total, len(rs))
+    vac = None if total >= nrs * 0.95 else "judged %d rows for %d executions" % (total, nrs)
     vlib.finish(ctx, "model_checking", {
-        "states": gen.distinct, "transitions": max(gen.generated, 1), "traces_validated_against_impl": total,
+        "states": gdistinct, "transitions": max(ggenerated, 1), "traces_validated_against_impl": total,
         "evaluations": total, "distinct_nontrivial": distinct,
         "rule": "for %d HtpWire exchanges (1 and 2 pipelined messages each): EVERY single cut of the request stream and of the response stream, one byte per call, random multi-cuts and "
                 "interleaved double cuts (legal draws only); each execution's complete transaction dump is compared by TLC with the whole-delivery dump of the same exchange and with Expected" % (n_idx * 2),
-        "samples": [scns[0], {"schedules_of_first_exchange": [m["sched"] for m in meta[:12]]}],
+        "samples": [first_scn, {"schedules_of_first_exchange": first_meta}],
         "exhaustive": True, "exhaustive_space": "all single cuts of both streams for every generated exchange",
     }, assumptions=["MULTI_PACKET_HEAD is excluded from the comparison as the property states", "consecutive data callbacks are merged in the recorded callback order"], vacuous=vac)
